@@ -186,8 +186,11 @@ class DirectEval:
             n = st["n"]
             if isinstance(n, dict):
                 n = self.templates[n["tmpl"]]
-            self.sv.apply1(st["q"], rq.rot(st["axis"], rq.angle_nd(n, st["d"])))
-            self.trace.append(("rot_" + st["axis"], st["q"], n, st["d"]))
+            d = st["d"]
+            if isinstance(d, dict):
+                d = self.templates[d["tmpl"]]
+            self.sv.apply1(st["q"], rq.rot(st["axis"], rq.angle_nd(n, d)))
+            self.trace.append(("rot_" + st["axis"], st["q"], n, d))
         elif op == "cnot":
             self.need_qubit(st["c"])
             self.need_qubit(st["t"])
